@@ -184,6 +184,10 @@ static int crv_bits(const std::string &crv)
 		return 256;
 	if (crv == "Ed448")
 		return 456;
+	if (crv == "brainpoolP512r1")
+		return 512;
+	if (crv == "secp224r1")
+		return 224;
 	return 0;
 }
 
